@@ -614,6 +614,10 @@ func checkC13(c *Ctx, r *Report) {
 	checkRetryFailureReturned(c, r)
 	checkSendSites(c, r)
 	checkSuccessNeedsExchange(c, r)
+	// the paged discovery reports success only if every page's exchange succeeded (shared with
+	// C16, C12, C05, C17): a later page that fails — lost reply, busy for ever, the context's own
+	// expiry — is not "end of list"
+	checkChunkLoop(c, r)
 }
 
 // checkRetryBoundedByContext: rule shared by C13 (no call outlives its context) and C10
